@@ -127,6 +127,21 @@ def _reach_blocks(b, start):
     return seen
 
 
+def _borrows_region_local(b, a, region):
+    """is the `&mut` operand a borrow of something that only exists inside the given region (an iterator built for an
+    `all(..)` inside a debug_assert, say)?  Then what it mutates is gone with the region."""
+    base = b.base_of(a)
+    if not base:
+        return False
+    l = base[0]
+    if l <= b.arg_count:
+        return False
+    ds = b.defs().get(l, [])
+    if not ds:
+        return False
+    return all((d[2] if len(d) > 2 else None) in region for d in ds) and not any(x[1] == 'deref' for x in base[1] if isinstance(x, tuple) and len(x) > 1)
+
+
 def _variant_edges(b, local, idx, depth=0, conveyors=False):
     """[(switch block, target)] taken when the enum value in `local` is variant number idx (followed through moves and `?`)"""
     out = []
@@ -553,7 +568,8 @@ def run(facts, cg):
                 t = b.blocks[rbi]['term']
                 if t['k'] != 'call' or t.get('exp') or 'q' not in t['callee']:
                     continue
-                muts = [a for a in t['args'] if a['k'] in ('copy', 'move') and b.lty(a['pl']['l']).get('k') == 'ref' and b.lty(a['pl']['l']).get('mut')]
+                muts = [a for a in t['args'] if a['k'] in ('copy', 'move') and b.lty(a['pl']['l']).get('k') == 'ref' and b.lty(a['pl']['l']).get('mut')
+                        and not _borrows_region_local(b, a, region)]
                 if muts:
                     name = callee_q(t).split('::')[-1]
                     finding('R-DEBUGONLY', b.q, name, 'the call of `%s` at %s takes `&mut` and sits inside a %s!: it is compiled out of release builds, '
